@@ -168,6 +168,36 @@ Proof.
   split; [apply run_TxInv; [apply Inv_empty|apply TxInv_empty]|]. vm_compute. auto.
 Qed.
 
+(* ================================================================== the command runtime model (coq/Rt) *)
+(* In the function-for-function model of command/executor.rs, stream.rs and context.rs (coq/Rt/Rt.v): dropping a
+   Command value releases it whatever the drop glue of its tasks does meanwhile, and what has been released
+   stays released through every later step of the runtime on any command at any nesting level - a dropped
+   Command stays dropped, the flag of a task that is gone stays so, a closed receiver stays closed (so a
+   sender the shell still holds can never deliver into released work).  For every fuel and every heap
+   (coq/Rt/Perm.v, the frame principle instantiated with "what only ever moves one way"). *)
+From Crux Require Rt.Rt Rt.Perm.
+Theorem C13_rt_dropping_a_command_releases_it : forall f cid H,
+  cid < length (Rt.cmds H) -> Rt.c_alive (Rt.gcmd cid (Rt.drop_cmd (S f) cid H)) = false.
+Proof. exact Perm.drop_cmd_dead. Qed.
+Theorem C13_rt_released_stays_released : forall fuel cid H H',
+  Rt.settle fuel cid H = Some H' ->
+  (forall c, c < length (Rt.cmds H) -> Rt.c_alive (Rt.gcmd c H) = false -> Rt.c_alive (Rt.gcmd c H') = false) /\
+  (forall u, u < length (Rt.tfl H) -> Rt.tf_alive (Rt.gtf u H) = false -> Rt.tf_alive (Rt.gtf u H') = false) /\
+  (forall ch, Rt.ch_rx (Rt.gch ch H) = false -> Rt.ch_rx (Rt.gch ch H') = false).
+Proof.
+  intros fuel cid H H' E. pose proof (Perm.perm_settle fuel cid H H' E) as P.
+  split; [exact (Perm.pm_dead _ _ P) | split; [exact (Perm.pm_gone _ _ P) | exact (Perm.pm_rx _ _ P)]].
+Qed.
+Theorem C13_rt_released_stays_released_poll_next : forall fuel cid w H r H',
+  Rt.poll_next fuel cid w H = Some (r, H') ->
+  (forall c, c < length (Rt.cmds H) -> Rt.c_alive (Rt.gcmd c H) = false -> Rt.c_alive (Rt.gcmd c H') = false) /\
+  (forall u, u < length (Rt.tfl H) -> Rt.tf_alive (Rt.gtf u H) = false -> Rt.tf_alive (Rt.gtf u H') = false) /\
+  (forall ch, Rt.ch_rx (Rt.gch ch H) = false -> Rt.ch_rx (Rt.gch ch H') = false).
+Proof.
+  intros fuel cid w H r H' E. pose proof (Perm.perm_poll_next fuel cid w H r H' E) as P.
+  split; [exact (Perm.pm_dead _ _ P) | split; [exact (Perm.pm_gone _ _ P) | exact (Perm.pm_rx _ _ P)]].
+Qed.
+
 (* ================================================================== legacy timers *)
 Definition C13_cleared_set_full_statement : Prop :=
   forall acts first, length (tm_cleared (trun (timers_init first) acts)) <= length (tm_pending (trun (timers_init first) acts)).
